@@ -818,12 +818,21 @@ func (s *TreeShapeListener) ExitTable(ctx *parser.TableContext) {
 	t := s.currentApp().Types[s.currentTypePath.Get()]
 	// wire up primary key
 	if rel := t.GetRelation(); rel != nil {
-		pks := []string{}
+		// a table may be declared in several blocks: keep the key fields of the earlier ones
+		pks := append([]string{}, rel.GetPrimaryKey().GetAttrName()...)
+		isKey := func(name string) bool {
+			for _, k := range pks {
+				if k == name {
+					return true
+				}
+			}
+			return false
+		}
 		for _, name := range s.fieldname {
 			f := rel.GetAttrDefs()[name]
 			if patterns, has := f.GetAttrs()[patternsKey]; has {
 				for _, a := range patterns.GetA().Elt {
-					if a.GetS() == "pk" {
+					if a.GetS() == "pk" && !isKey(name) {
 						pks = append(pks, name)
 					}
 				}
